@@ -8,6 +8,18 @@
 // tracker/peerstore is rewritten to verif/shim/vrand by the overlay; the
 // permutation LocalStore.GetPeers draws is part of the BFS operation, so Apply
 // is deterministic and every draw is enumerated.
+//
+// E3 with expiry (second family of searches): the alphabet additionally holds a
+// clock advance past the TTL and the two periodic cleanup passes of the store
+// (cleanupExpiredPeerEntries / cleanupExpiredPeerGroups, called directly), so
+// handouts are also checked on stores whose entries expired, were removed
+// (swap-removal reorders the list) and were re-announced.
+//
+// E1 (e1.go): the same announce handler on threads of the controlled scheduler
+// (sync in tracker/peerstore -> verif/shim/vsync): every interleaving, up to a
+// preemption bound, of the cleanup passes with announcing agents at every lock
+// operation of the store, followed by closing announces of every agent on the
+// same long-lived store; every response is checked against the same clauses.
 package main
 
 import (
@@ -22,6 +34,7 @@ import (
 	"strconv"
 	"strings"
 	"sync"
+	"sync/atomic"
 	"time"
 
 	"github.com/andres-erbsen/clock"
@@ -37,6 +50,7 @@ import (
 	_ "verif/quiet"
 	"verif/rep"
 	"verif/shim/vrand"
+	"verif/vrt"
 )
 
 // ---------------------------------------------------------------- rand control
@@ -99,6 +113,44 @@ func factorial(n int) int {
 	}
 	return f
 }
+
+// ---------------------------------------------------------------- clock
+
+const ttlUnits = 10
+
+var (
+	unit = time.Second
+	ttl  = ttlUnits * unit
+	t0   = time.Unix(1_000_000, 0)
+)
+
+// vclock is an explicit-time clock.Clock: LocalStore only uses Now; the
+// embedded mock provides the remaining (unused) methods. clock.Mock.Add is not
+// used because it sleeps 1 ms of wall time per call.
+type vclock struct {
+	clock.Clock
+	mu     sync.Mutex
+	now    time.Time
+	points bool // E1: every read of the clock is a scheduling point
+}
+
+func newVClock() *vclock { return &vclock{Clock: clock.NewMock(), now: t0} }
+func (c *vclock) Now() time.Time {
+	if c.points {
+		vrt.Point("clock.Now")
+	}
+	c.mu.Lock()
+	defer c.mu.Unlock()
+	return c.now
+}
+func (c *vclock) Add(d time.Duration) {
+	c.mu.Lock()
+	c.now = c.now.Add(d)
+	c.mu.Unlock()
+}
+
+// vacuity counters of the expiry searches (all Apply calls, replays included)
+var cntCleanupRemoved, cntRefreshExpired int64
 
 // ---------------------------------------------------------------- fixtures
 
@@ -163,12 +215,16 @@ type config struct {
 	origins int
 	v1      bool
 	peers   int // how many of agentNames take part
+	expiry  bool // alphabet also holds clock advance + the two cleanup passes
 }
 
 func (c config) String() string {
 	ep := "v2"
 	if c.v1 {
 		ep = "v1"
+	}
+	if c.expiry {
+		ep += "+expiry"
 	}
 	return fmt.Sprintf("policy=%s limit=%d origins=%d peers=%d %s", c.policy, c.limit, c.origins, c.peers, ep)
 }
@@ -179,8 +235,10 @@ type sys struct {
 	cfg      config
 	ps       *peerstore.LocalStore
 	handler  http.Handler
-	order    []string        // model: agents in first-announce order (== peerList order)
+	order    []string        // model: agents in first-announce order (== peerList order while nothing is removed)
 	complete map[string]bool // model: latest completion flag
+	clk      *vclock
+	at       map[string]time.Time // model (expiry searches): time of the latest announce
 }
 
 // outcome classes / vacuity flags seen anywhere in the run (set semantics, so
@@ -194,6 +252,7 @@ type classKey struct {
 	selfDrawn bool   // the store's draw contained the announcer
 	binding   bool   // more other agents stored than the limit
 	status    int    // non-200 answers
+	expiry    bool   // seen in a search whose alphabet holds clock advance + cleanup passes
 }
 
 func newSys(cfg config) (*sys, error) {
@@ -201,10 +260,52 @@ func newSys(cfg config) (*sys, error) {
 	if err != nil {
 		return nil, err
 	}
-	ps := peerstore.NewLocalStoreNoCleanup(peerstore.LocalConfig{}, clock.NewMock())
+	var clk *vclock
+	var ps *peerstore.LocalStore
+	if cfg.expiry {
+		clk = newVClock()
+		ps = peerstore.NewLocalStoreNoCleanup(peerstore.LocalConfig{TTL: ttl}, clk)
+	} else {
+		ps = peerstore.NewLocalStoreNoCleanup(peerstore.LocalConfig{}, clock.NewMock())
+	}
 	srv := trackerserver.New(trackerserver.Config{PeerHandoutLimit: cfg.limit}, tally.NoopScope, pol, ps, fakeOrigins{cfg.origins}, nil)
-	return &sys{cfg: cfg, ps: ps, handler: srv.Handler(), complete: map[string]bool{}}, nil
+	return &sys{cfg: cfg, ps: ps, handler: srv.Handler(), complete: map[string]bool{}, clk: clk, at: map[string]time.Time{}}, nil
 }
+
+// listing is what the store's public API shows for the blob: GetPeers with an
+// unbounded n and no permutation context (the shim then answers the identity
+// permutation = store order).
+func (s *sys) listing() ([]*core.PeerInfo, error) { return s.ps.GetPeers(blobHash, 1<<20) }
+
+// storeOrder (expiry searches): names of the stored entries in list order, as
+// they will be once `name` has been stored by UpdatePeer (appended when absent).
+// The cleanup's swap-removal reorders the list, so the order is read from the
+// store's listing instead of being modelled; it only sizes the permutation
+// alphabet and feeds the vacuity counters, never an oracle.
+func (s *sys) storeOrder(name string) ([]string, error) {
+	peers, err := s.listing()
+	if err != nil {
+		return nil, err
+	}
+	var out []string
+	found := false
+	for _, p := range peers {
+		n := nameOf(p.PeerID)
+		if n == name {
+			found = true
+		}
+		out = append(out, n)
+	}
+	if !found {
+		out = append(out, name)
+	}
+	return out, nil
+}
+
+// maxPermM bounds the list length for which every permutation is an operation
+// of its own (only a corrupted store holds more entries than agents).
+const maxPermM = 5
+
 
 func (s *sys) Close() { s.ps.Close() }
 
@@ -223,9 +324,20 @@ func (s *sys) Ops() []string {
 		if !s.known(p) {
 			m++
 		}
+		if s.cfg.expiry {
+			if o, err := s.storeOrder(p); err == nil {
+				m = len(o)
+			}
+			if m > maxPermM {
+				m = maxPermM
+			}
+		}
 		for k := 0; k < factorial(m); k++ {
 			ops = append(ops, fmt.Sprintf("a %s 0 %d", p, k))
 		}
+	}
+	if s.cfg.expiry {
+		ops = append(ops, "adv", "ce", "cg")
 	}
 	return ops
 }
@@ -252,8 +364,22 @@ func (s *sys) modelKey() string {
 func (s *sys) Key() string {
 	var b strings.Builder
 	b.WriteString(s.modelKey())
+	if s.cfg.expiry {
+		// every advance exceeds the TTL, so an announcement is either from the
+		// current instant (fresh) or expired; time stamps are only ever
+		// compared with the clock
+		now := s.clk.Now()
+		b.WriteString(" age:")
+		for _, p := range s.order {
+			if now.Before(s.at[p].Add(ttl)) {
+				b.WriteByte('f')
+			} else {
+				b.WriteByte('x')
+			}
+		}
+	}
 	b.WriteString(" | store:")
-	peers, err := s.ps.GetPeers(blobHash, 1<<20)
+	peers, err := s.listing()
 	if err != nil {
 		return b.String() + " error " + err.Error()
 	}
@@ -280,7 +406,79 @@ func entryClass(p *core.PeerInfo) int {
 	return 2
 }
 
+// handoutViolation is the oracle on one 200 announce response: the clauses of
+// the statement, one by one. It returns the fingerprint of the first violated
+// clause ("" when the handout satisfies all of them). Shared by the BFS
+// searches and the E1 interleaving harnesses.
+func handoutViolation(policy string, limit, norigins int, id core.PeerID, complete bool, peers []*core.PeerInfo) (fp, extra string) {
+	// clause: empty for an announcer that reports completion
+	if complete && len(peers) > 0 {
+		return "non-empty handout for an announcer that reports completion", ""
+	}
+	// clause: no peer twice
+	seen := map[core.PeerID]bool{}
+	for _, p := range peers {
+		if seen[p.PeerID] {
+			return "handout lists a peer twice", ""
+		}
+		seen[p.PeerID] = true
+	}
+	// clause: at most the configured number of agents plus the blob's origins
+	isOrigin := map[core.PeerID]bool{}
+	for i := 0; i < norigins; i++ {
+		isOrigin[originIDs[i]] = true
+	}
+	agents := 0
+	for _, p := range peers {
+		if !isOrigin[p.PeerID] {
+			agents++
+		}
+	}
+	if agents > limit {
+		return "handout holds more agents than the configured limit", fmt.Sprintf("%d agents > limit %d: ", agents, limit)
+	}
+	// clause: ordered by the configured priority
+	if policy == "completeness" {
+		for i := 1; i < len(peers); i++ {
+			if entryClass(peers[i-1]) > entryClass(peers[i]) {
+				return "handout not ordered seeders, origins, incomplete peers (completeness policy)", ""
+			}
+		}
+	}
+	// clause: never lists the announcing peer (checked last so that a second
+	// failing clause of the same response is not hidden behind this one)
+	if seen[id] {
+		return "handout lists the announcing peer", ""
+	}
+	return "", ""
+}
+
 func (s *sys) Apply(op string) error {
+	if s.cfg.expiry {
+		switch op {
+		case "adv":
+			s.clk.Add(ttl + unit)
+			return nil
+		case "ce", "cg":
+			before, err := s.listing()
+			if err != nil {
+				return err
+			}
+			if op == "ce" {
+				s.ps.VerifCleanupExpiredPeerEntries()
+			} else {
+				s.ps.VerifCleanupExpiredPeerGroups()
+			}
+			after, err := s.listing()
+			if err != nil {
+				return err
+			}
+			if len(after) < len(before) {
+				atomic.AddInt64(&cntCleanupRemoved, 1)
+			}
+			return nil
+		}
+	}
 	var name string
 	var cflag, k int
 	if _, err := fmt.Sscanf(op, "a %s %d %d", &name, &cflag, &k); err != nil {
@@ -305,6 +503,29 @@ func (s *sys) Apply(op string) error {
 	}
 	rec := httptest.NewRecorder()
 
+	// store order the draw will index (expiry searches: read from the store,
+	// see storeOrder; otherwise the model's first-announce order)
+	var drawOrder []string
+	listedBefore := 0
+	if s.cfg.expiry {
+		o, err := s.storeOrder(name)
+		if err != nil {
+			return err
+		}
+		drawOrder = o
+		if l, err := s.listing(); err == nil {
+			listedBefore = len(l)
+		}
+		if a, ok := s.at[name]; ok && !s.clk.Now().Before(a.Add(ttl)) {
+			for _, n := range o[:len(o)-1] {
+				if n == name {
+					atomic.AddInt64(&cntRefreshExpired, 1)
+					break
+				}
+			}
+		}
+	}
+
 	g := goid()
 	ctx := &permCtx{k: k}
 	permByGoroutine.Store(g, ctx)
@@ -317,13 +538,25 @@ func (s *sys) Apply(op string) error {
 		s.order = append(s.order, name)
 	}
 	s.complete[name] = complete
-	m := len(s.order)
+	if s.cfg.expiry {
+		s.at[name] = s.clk.Now()
+	} else {
+		drawOrder = s.order
+	}
+	m := len(drawOrder)
 
 	// harness sanity: GetPeers' draw must have gone through the shim (an
 	// incomplete announcer with >= 2 stored agents needs at least one draw).
 	// The exact number of draws is not asserted: it depends on the store's
 	// internal list length, which is C27's subject; surplus digits are zero.
-	if !complete && m >= 2 && ctx.draws == 0 {
+	// Expiry searches: a store corrupted by a cleanup pass may list fewer entries
+	// than storeOrder predicts, so only a listing that already held two entries
+	// before the announce obliges a draw.
+	sure := m >= 2
+	if s.cfg.expiry {
+		sure = listedBefore >= 2
+	}
+	if !complete && sure && ctx.draws == 0 {
 		return fmt.Errorf("op %q: no rand draw observed (overlay inactive or GetPeers path changed)", op)
 	}
 
@@ -361,54 +594,18 @@ func (s *sys) Apply(op string) error {
 		}
 		selfDrawn := false
 		for _, i := range perm[:n] {
-			if s.order[i] == name {
+			if drawOrder[i] == name {
 				selfDrawn = true
 			}
 		}
-		ck := classKey{policy: s.cfg.policy, limit: s.cfg.limit, shape: string(shape), selfDrawn: selfDrawn, binding: m-1 > s.cfg.limit}
+		ck := classKey{policy: s.cfg.policy, limit: s.cfg.limit, shape: string(shape), selfDrawn: selfDrawn, binding: m-1 > s.cfg.limit, expiry: s.cfg.expiry}
 		if _, ok := classes.Load(ck); !ok {
 			classes.Store(ck, true)
 		}
 	}
 
-	// clause: empty for an announcer that reports completion
-	if complete && len(resp.Peers) > 0 {
-		return bfs.Failf("non-empty handout for an announcer that reports completion", "%s", detail())
-	}
-	// clause: no peer twice
-	seen := map[core.PeerID]bool{}
-	for _, p := range resp.Peers {
-		if seen[p.PeerID] {
-			return bfs.Failf("handout lists a peer twice", "%s", detail())
-		}
-		seen[p.PeerID] = true
-	}
-	// clause: at most the configured number of agents plus the blob's origins
-	isOrigin := map[core.PeerID]bool{}
-	for i := 0; i < s.cfg.origins; i++ {
-		isOrigin[originIDs[i]] = true
-	}
-	agents := 0
-	for _, p := range resp.Peers {
-		if !isOrigin[p.PeerID] {
-			agents++
-		}
-	}
-	if agents > s.cfg.limit {
-		return bfs.Failf("handout holds more agents than the configured limit", "%d agents > limit %d: %s", agents, s.cfg.limit, detail())
-	}
-	// clause: ordered by the configured priority
-	if s.cfg.policy == "completeness" {
-		for i := 1; i < len(resp.Peers); i++ {
-			if entryClass(resp.Peers[i-1]) > entryClass(resp.Peers[i]) {
-				return bfs.Failf("handout not ordered seeders, origins, incomplete peers (completeness policy)", "%s", detail())
-			}
-		}
-	}
-	// clause: never lists the announcing peer (checked last so that a second
-	// failing clause of the same transition is not hidden behind this one)
-	if seen[id] {
-		return bfs.Failf("handout lists the announcing peer", "%s", detail())
+	if fp, extra := handoutViolation(s.cfg.policy, s.cfg.limit, s.cfg.origins, id, complete, resp.Peers); fp != "" {
+		return bfs.Failf(fp, "%s%s", extra, detail())
 	}
 
 	return nil
@@ -429,10 +626,15 @@ func replay(run *evid.Run, path string) {
 		Case struct {
 			Search  string   `json:"search"`
 			History []string `json:"history"`
+			Harness string   // E1 violation: scenario name + schedule
+			Choices []int
 		} `json:"case"`
 	}
 	if err := json.Unmarshal(b, &f); err != nil {
 		run.Fatal(err)
+	}
+	if f.Case.Harness != "" {
+		replayE1(run, f.Case.Harness, f.Case.Choices)
 	}
 	var cfg config
 	var ep string
@@ -440,7 +642,8 @@ func replay(run *evid.Run, path string) {
 	if _, err := fmt.Sscanf(f.Case.Search, "policy=%s limit=%d origins=%d peers=%d %s depth=%d", &cfg.policy, &cfg.limit, &cfg.origins, &cfg.peers, &ep, &depth); err != nil {
 		run.Fatal(fmt.Errorf("replay: cannot parse search %q: %v", f.Case.Search, err))
 	}
-	cfg.v1 = ep == "v1"
+	cfg.v1 = strings.HasPrefix(ep, "v1")
+	cfg.expiry = strings.HasSuffix(ep, "+expiry")
 	sy, err := newSys(cfg)
 	if err != nil {
 		run.Fatal(err)
@@ -460,25 +663,63 @@ func replay(run *evid.Run, path string) {
 // ---------------------------------------------------------------- main
 
 func main() {
+	e1ChildMain() // E1 shard worker: never returns
 	vrand.Decider = decider
 
 	run := evid.New("C26", "model_checking")
 	if rp := run.ReplayPath(); rp != "" {
 		replay(run, rp)
 	}
-	run.Rule = "BFS over announce sequences: op = (announcing agent, completion flag, index of the permutation LocalStore.GetPeers draws) through the real tracker HTTP handler on a real LocalStore; one search per (policy in {default, completeness}) x (PeerHandoutLimit in {1,2,5}) x (number of blob origins in {0,1,2}) [thorough: plus the v1 endpoint on a 4-search sub-grid]; state = agents in store order with their latest completion flag; every response is checked against all five clauses. distinct = (search, state) pairs + handout outcome classes."
+	run.Rule = "E3: BFS over announce sequences: op = (announcing agent, completion flag, index of the permutation LocalStore.GetPeers draws) through the real tracker HTTP handler on a real LocalStore; one search per (policy in {default, completeness}) x (PeerHandoutLimit in {1,2,5}) x (number of blob origins in {0,1,2}) [thorough: plus the v1 endpoint on a 4-search sub-grid]; state = agents in store order with their latest completion flag. E3 with expiry: the same operations plus {advance the clock past the TTL, cleanupExpiredPeerEntries, cleanupExpiredPeerGroups} (explicit clock, passes called directly), permutation alphabet sized by the store's own listing, state additionally holds fresh/expired per agent. E1: generated scenarios = every start state (1-2 [thorough 1-3] stored agents, each expired or fresh, every list order up to agent symmetry, at least one expired) x every announcer program of length 1-2 over {stored agents + one new agent} x {complete, incomplete} [thorough: also two announcer threads, groups pass first, default policy without origin, a clock-tick thread]; one cleaner thread runs the entry pass then the group pass while the announcer threads announce through the real handler; every interleaving at every Lock/RLock/Unlock/RUnlock of tracker/peerstore with at most 2 [thorough 3] preemptions is executed, then the same store serves closing announces of every agent, a clock advance, refreshes, a second cleanup and more announces (with a binding limit every permutation of a closing announce is drawn). Every 200 response of every phase is checked against all five clauses. distinct = (search, state) pairs + handout outcome classes + (E1 scenario, outcome) pairs, outcome = overlap flags + handouts of the concurrent announces + store listing after the race and at the end."
 	run.Assume("announcers are agents (Origin=false): origins run with announcing disabled (lib/torrent/scheduler/constructors.go)")
-	run.Assume("the mock clock does not advance (entry expiry is C27's subject); one blob per search")
-	run.Assume("math/rand in tracker/peerstore is rewritten to verif/shim/vrand by the build overlay; every permutation GetPeers can draw is enumerated as part of the operation")
-	run.Assume("LocalStore is built without its wall-clock cleanup goroutine (export file in the overlay)")
+	run.Assume("E3 without expiry: the mock clock does not advance; E3 with expiry: every advance exceeds the TTL (an entry is fresh or expired, never at the boundary; which expired entries a store still lists is C27's subject -- the C26 clauses do not depend on it); one blob per search")
+	run.Assume("math/rand in tracker/peerstore is rewritten to verif/shim/vrand by the build overlay; every permutation GetPeers can draw is enumerated as part of the operation (BFS, closing announces under a binding limit); announces of the concurrent E1 phase draw the identity permutation")
+	run.Assume("LocalStore is built without its wall-clock tickers and cleanup goroutine (export file in the overlay); the cleanup passes are called directly, by a single cleaner thread in E1 (LocalStore runs both passes from the single cleanupTask goroutine)")
+	run.Assume("E1: sync in tracker/peerstore is rewritten to verif/shim/vsync; code between two lock operations of tracker/peerstore is data-race free; schedules are sequentially consistent interleavings at lock operations with a preemption bound; the vsync RWMutex has no writer preference")
 
+	// every part has its own time budget, so that a slow machine cannot starve
+	// a later part: expiry searches, then the announce-only grid, then E1
 	depth, npeers := 4, 3
-	budget := 50 * time.Second
+	xbudget, budget, e1budget := 30*time.Second, 45*time.Second, 75*time.Second
 	if run.Thorough() {
 		depth, npeers = 5, 4
-		budget = 780 * time.Second
+		xbudget, budget, e1budget = 150*time.Second, 300*time.Second, 330*time.Second
 	}
-	deadline := time.Now().Add(budget)
+	search := func(cfg config, depth int, deadline time.Time) *bfs.Result {
+		name := fmt.Sprintf("%s depth=%d", cfg, depth)
+		res := rep.BFS(run, name, bfs.Config{MaxDepth: depth, ExpandFailed: true, Deadline: deadline, New: func() (bfs.System, error) { return newSys(cfg) }})
+		for i := 0; i < res.States; i++ {
+			run.Distinct(fmt.Sprintf("%s#%d", name, i))
+		}
+		return res
+	}
+
+	// expiry searches: 3 agents; deep enough for announce, expire, partial
+	// refresh, cleanup (swap-removal), re-announce, observe
+	xdepth := 6
+	xcfgs := []config{
+		{policy: "completeness", limit: 5, origins: 1, peers: 3, expiry: true},
+		{policy: "completeness", limit: 2, origins: 1, peers: 3, expiry: true},
+	}
+	if run.Thorough() {
+		xdepth = 8
+		xcfgs = append(xcfgs,
+			config{policy: "completeness", limit: 1, origins: 2, peers: 3, expiry: true},
+			config{policy: "default", limit: 2, origins: 0, peers: 3, expiry: true})
+	}
+	deadline := time.Now().Add(xbudget)
+	xdone := true
+	for _, cfg := range xcfgs {
+		if res := search(cfg, xdepth, deadline); !res.Completed {
+			xdone = false
+		}
+	}
+	run.Set("expiry_bfs_apply_calls_cleanup_removed_entries", atomic.LoadInt64(&cntCleanupRemoved))
+	run.Set("expiry_bfs_apply_calls_refreshing_expired_listed_entry", atomic.LoadInt64(&cntRefreshExpired))
+	if xdone && (cntCleanupRemoved == 0 || cntRefreshExpired == 0) {
+		run.Fatal(errors.New("vacuous expiry searches: no cleanup pass removed an entry / no expired listed entry was re-announced"))
+	}
+
 	var cfgs []config
 	for _, pol := range []string{"default", "completeness"} {
 		for _, lim := range []int{1, 2, 5} {
@@ -495,13 +736,9 @@ func main() {
 			}
 		}
 	}
+	deadline = time.Now().Add(budget)
 	for _, cfg := range cfgs {
-		cfg := cfg
-		name := fmt.Sprintf("%s depth=%d", cfg, depth)
-		res := rep.BFS(run, name, bfs.Config{MaxDepth: depth, ExpandFailed: true, Deadline: deadline, New: func() (bfs.System, error) { return newSys(cfg) }})
-		for i := 0; i < res.States; i++ {
-			run.Distinct(fmt.Sprintf("%s#%d", name, i))
-		}
+		search(cfg, depth, deadline)
 	}
 	nclasses, threeClass, selfDrawn, binding := 0, 0, 0, 0
 	classes.Range(func(k, _ interface{}) bool {
@@ -523,5 +760,7 @@ func main() {
 	run.Set("classes_with_seeder_origin_and_incomplete", threeClass)
 	run.Set("classes_where_store_drew_the_announcer", selfDrawn)
 	run.Set("classes_where_limit_is_binding", binding)
+
+	runE1(run, e1budget)
 	run.Finish()
 }
